@@ -190,6 +190,7 @@ def run_case(ctx, kind_, idx):
                 xs, ys = R.run("PiecewiseConstantRFA", x, y, n, {})
                 ys = ys + rng.normal(0, 0.1, len(ys))
                 kw = {}
+                ref_x, ref_y = x, y
                 if c == "rule_function_target":
                     kw["target_function_integral_method"] = bogus(rng, ("trapezoid", "rectangle"))
                 elif c == "rule_function_reference":
@@ -204,6 +205,10 @@ def run_case(ctx, kind_, idx):
                         kw["fixed_points_indices_in_x"] = [j]
                 elif c == "strategy_matching_function":
                     kw["fixed_points_finding_strategy"] = bogus(rng, ("closest", "lower", "higher"))
+                    if rng.integers(0, 4) == 0:
+                        # nothing to look up (an emptied reference): the name is examined all the same
+                        ref_x, ref_y = ([], []) if rng.integers(0, 2) else (np.array([]), np.array([]))
+                        info["empty_reference"] = True
                 elif c == "fixed_values_not_samples":
                     fp = [float(v) for v in x]
                     j = int(rng.integers(0, len(fp)))
@@ -214,7 +219,7 @@ def run_case(ctx, kind_, idx):
                 else:
                     kw["fixed_points_indices_in_x"] = list(range(len(xs))) + [0] * int(rng.integers(1, 4))
                 info["kwargs"] = {k: (v if not isinstance(v, (list, np.ndarray)) else "<%d values>" % len(v)) for k, v in kw.items()}
-                call = lambda: integral_matching_reference_stretch(xs, ys, x, y, **kw)
+                call = lambda: integral_matching_reference_stretch(xs, ys, ref_x, ref_y, **kw)
             elif c == "rule_integral_helper":
                 b = bogus(rng, ("trapezoid", "rectangle"))
                 info["method"] = b
@@ -222,7 +227,11 @@ def run_case(ctx, kind_, idx):
             elif c == "strategy_dispatcher":
                 b = bogus(rng, ("closest", "lower", "higher"))
                 info["strategy"] = b
-                call = lambda: U.find_closest_element_indices_to_values(x, [float(x[1])], strategy=b)
+                look = [[float(x[1])], [], [float(x[0]) - 1.0, float(x[-1]) + 1.0], np.array([]),
+                        [float(v) for v in x[:3]]][int(rng.integers(0, 5))]
+                info["lookup"] = look
+                call = lambda: U.find_closest_element_indices_to_values(x, look, strategy=b) if rng.integers(0, 2) else \
+                    U.find_closest_element_indices_to_values(x, look, b)
             elif c == "method_function":
                 b = bogus(rng, ("linear", "constant", "cubic", "spline"))
                 info["method"] = b
